@@ -82,11 +82,20 @@ func raceChild(args []string) {
 				u := gowarc.NewUnmarshaler()
 				for i := 0; i < 20; i++ {
 					kind := []string{"resource", "http", "wf", "revisit"}[(g+i)%4]
-					data := recordBytes(kind, 40+i)
+					size := 40 + i
+					if i%3 == 0 {
+						size = 0 // empty block / an http message without body (a bodiless request, a redirect, a 304)
+					}
+					data := recordBytes(kind, size)
 					data = bytes.Replace(data, []byte("WARC-Date:"), []byte(fmt.Sprintf("x-seen-by-%d-%d: u\r\nWARC-Date:", g, i)), 1)
 					rec, _, _, err := u.Unmarshal(bufio.NewReader(bytes.NewReader(data)))
 					if err == nil && rec != nil {
 						_ = rec.WarcHeader().Get(fmt.Sprintf("x-other-%d", g))
+						// the goroutine that owns the record reads it again: copies it out with its own marshaler
+						_, _, _ = gowarc.NewMarshaler().Marshal(io.Discard, rec, 0)
+						if rb, err := rec.Block().RawBytes(); err == nil {
+							_, _ = io.ReadAll(rb)
+						}
 						_ = rec.Close()
 					}
 				}
